@@ -63,6 +63,11 @@ class LocalGen:
         return attr
 
 
+# StreamStub.get_state() hands out ("VF_STATE", concrete generator state, index of the symbolic stream term in force): a plain picklable
+# tuple, so that it can travel through a checkpoint
+SAVED_TERMS = []
+
+
 class StreamStub:
     """the global np.random of every tempest module, threaded as a symbolic state term."""
 
@@ -123,11 +128,16 @@ class StreamStub:
             self.unseeded_entropy.append("default_rng(None)")
         return np.random.default_rng(0 if seed is None else seed)
 
-    def get_state(self):
-        return self.rs.get_state()
+    def get_state(self, *a, **k):
+        SAVED_TERMS.append(self.term)
+        return ("VF_STATE", self.rs.get_state(), len(SAVED_TERMS) - 1)
 
     def set_state(self, st):
-        self.rs.set_state(st)
+        if isinstance(st, tuple) and len(st) == 3 and st[0] == "VF_STATE" and 0 <= st[2] < len(SAVED_TERMS):
+            self.rs.set_state(st[1])
+            self.term = SAVED_TERMS[st[2]]  # the stream continues from the state that was captured
+        else:
+            self.rs.set_state(st)
 
 
 class threaded:
@@ -211,6 +221,25 @@ def make_noreset(op):
                     stub.epoch += 1
                     h = HierarchicalGaussianMixture(n_init=1, normalize=True)
                     h.fit(X, w)
+            elif op.startswith("sampler-save-load"):
+                import tempfile, shutil
+                from pathlib import Path
+                tmp = tempfile.mkdtemp(prefix="vf_c09_")
+                try:
+                    mk = lambda: Sampler(lambda u: u, lambda x: -0.5 * np.sum(((x - 0.5) / 0.1) ** 2, axis=1), n_dim=2, n_particles=32, vectorize=True,
+                                         clustering=False, n_steps=1, n_max_steps=2, random_state=11, output_dir=tmp)
+                    smp = mk()
+                    stub.term = stub.s_after_construction  # the stream in force while the run is under way: symbolic
+                    smp._core._initialize_fresh()
+                    for _ in range(2):
+                        smp.sample()
+                    smp.save_state(Path(tmp) / "ck.state")
+                    smp2 = mk()  # a new sampler (its construction seeds the stream, as the property asks) ...
+                    smp2.load_state(Path(tmp) / "ck.state")  # ... and loading must not rewind the run to that seed
+                    smp2.sample(t0=2)
+                finally:
+                    shutil.rmtree(tmp, ignore_errors=True)
+                return smp2
             elif op.startswith("sampler-posterior"):
                 smp = Sampler(lambda u: u, lambda x: -0.5 * np.sum(((x - 0.5) / 0.1) ** 2, axis=1), n_dim=2, n_particles=32,
                               vectorize=True, clustering=False, n_steps=1, n_max_steps=2, random_state=(11 if "seeded" in op else None))
@@ -256,6 +285,35 @@ def make_noreset(op):
 
     def replay(m, label, v):
         """real numpy: run the operation from two different global seeds; equal draws afterwards <=> the stream was reset."""
+        if op.startswith("sampler-save-load"):
+            import tempfile, shutil
+            from pathlib import Path
+            tmp = tempfile.mkdtemp(prefix="vf_c09_")
+            saved0 = np.random.get_state()
+            try:
+                with warnings.catch_warnings():
+                    warnings.simplefilter("ignore")
+                    mk = lambda: Sampler(lambda u: u, lambda x: -0.5 * np.sum(((x - 0.5) / 0.1) ** 2, axis=1), n_dim=2, n_particles=32, vectorize=True,
+                                         clustering=False, n_steps=1, n_max_steps=2, random_state=11, output_dir=tmp)
+                    a = mk()
+                    after_ctor = np.random.get_state()
+                    np.random.set_state(after_ctor)
+                    first_draws_of_the_run = np.random.rand(3).tolist()
+                    np.random.set_state(after_ctor)
+                    a._core._initialize_fresh()
+                    for _ in range(2):
+                        a.sample()
+                    a.save_state(Path(tmp) / "ck.state")
+                    b = mk()
+                    b.load_state(Path(tmp) / "ck.state")
+                    draws_after_load = np.random.rand(3).tolist()
+            finally:
+                np.random.set_state(saved0)
+                shutil.rmtree(tmp, ignore_errors=True)
+            rewound = draws_after_load == first_draws_of_the_run
+            return {"reproduced": bool(rewound), "signature": "global-reseed:load-rewinds-the-run-to-its-seed", "payload": {"first_draws_of_the_run": first_draws_of_the_run, "draws_after_load": draws_after_load},
+                    "what": f"after two iterations, save and load into a new sampler, the next global draws {draws_after_load[:2]} are "
+                            f"{'exactly the first draws of the original run' if rewound else 'not the first draws of the original run'}: the resumed iterations replay the innovations of iterations 1, 2, ..."}
         if label == "no-unseeded-entropy-source" and op.startswith("sampler-iterations"):
             # same seed, same inputs, twice: any entropy source outside the seeded stream shows up as different particles
             saved0 = np.random.get_state()
@@ -440,7 +498,7 @@ def obligations(tier):
     ops = ["gmm-fit-default", "gmm-fit-random_state", "hier-fit-predict", "systematic-resample", "sampler-iterations-clustering-tpcn-mult",
            "sampler-iterations-seeded-clustering-rwm-syst", "sampler-iterations-seeded-noclustering-tpcn-mult",
            "hier-fit-twice", "sampler-posterior-seeded", "sampler-iterations-seeded-noclustering-rwm-mult-ckpt",
-           "sampler-iterations-seeded-noclustering-tpcn-mult-zeroregion"]
+           "sampler-iterations-seeded-noclustering-tpcn-mult-zeroregion", "sampler-save-load-resume-seeded"]
     if tier == "thorough":
         ops += ["sampler-iterations-clustering-rwm-syst", "sampler-iterations-noclustering-tpcn-syst", "sampler-iterations-noclustering-rwm-mult",
                 "sampler-iterations-seeded-noclustering-tpcn-syst", "sampler-iterations-seeded-clustering-tpcn-mult",
